@@ -52,7 +52,9 @@ class AsyncWorld:
     # ------------------------------------------------------------------ generation
     def gen(self, rng, prop, tier, avoid):
         big = tier == 'thorough'
-        mode = weighted(rng, [('ref', 7), ('rx', 3)])
+        mode = weighted(rng, [('ref', 7), ('rx', 3), ('noloop', 0.6)])
+        if mode == 'noloop':
+            return self._gen_noloop(rng)
         cfg = {
             'mode': mode,
             'n_targets': rng.choice([1, 1, 2]),
@@ -140,6 +142,25 @@ class AsyncWorld:
             d['out'] = out
             d['sleep'] = rng.choice([0.5, 5, 60]) if ('sleep' in cfg['faults'] and rng.random() < 0.25) else 0
         return d
+
+    def _gen_noloop(self, rng):
+        """plain script, no running event loop: the executor runs every awaitable to completion inside the assignment"""
+        faulty = rng.random() < 0.4          # failing / skipping awaitables; then the source never changes (see execute_noloop)
+        cfg = {'mode': 'noloop', 'n_targets': rng.choice([1, 2]), 'n_params': rng.choice([1, 2, 3]), 'faults': ['raise', 'skip'] if faulty else [],
+               'kinds': ['plain', 'pref', 'bsync', 'coro', 'agen', 'bcoro', 'bagen'], 'max_assign': 6, 'p_run': 0, 'ctor_link': False,
+               'update_ctx': False}
+        ops = []
+        for i in range(1, rng.randint(2, 10)):
+            if not faulty and rng.random() < 0.3:
+                ops.append({'op': 'do', 'do': 'src'})
+                continue
+            kind = rng.choice(cfg['kinds'])
+            d = {'op': 'do', 'do': 'assign', 't': rng.randrange(cfg['n_targets']), 'p': rng.randrange(cfg['n_params']), 'kind': kind, 'id': i,
+                 'gates': 0, 'sleep': 0, 'items': 1 if kind in ('coro', 'bcoro') else rng.choice([1, 2, 3]), 'out': 'value'}
+            if faulty and kind in ('coro', 'agen') and rng.random() < 0.4:
+                d['out'] = rng.choice(['raise', 'skip'])
+            ops.append(d)
+        return {'cfg': cfg, 'ops': ops}
 
     def _gen_rx(self, rng, cfg, n_ops):
         cfg['stage'] = rng.choice(['coro', 'agen', 'sgen'])
@@ -687,8 +708,66 @@ class _Run:
         kinds = tuple(sorted((k[1], v[-1]['kind']) for k, v in getattr(self, 'assigns', {}).items()))
         return f"{pend}|{kinds}|{min(self.loop.ready_count(), 4)}|{len(self.loop.parked_jobs())}"
 
+    def execute_noloop(self):
+        """No event loop is running: every assignment of an awaitable is complete when the assignment returns, so after each
+        operation every parameter holds what its most recent assignment produces for the current source value."""
+        self.loop.uninstall()
+        self.build()
+        model = {}          # (t, pn) -> (spec, value it holds)
+        for op in self.case['ops']:
+            if self.out.violations:
+                break
+            if op['do'] == 'src':
+                self.xcount += 1
+                self.log(f"SRC x={self.xcount}")
+                self.guard(lambda: setattr(self.src, 'x', self.xcount), 'src')
+            else:
+                spec = dict(op)
+                t = op['t'] % self.cfg['n_targets']
+                pn = PNAMES[op['p'] % self.cfg['n_params']]
+                self.assigns.setdefault((t, pn), []).append(spec)
+                kind = op['kind']
+                self.out.stats[f"assign.{kind}"] += 1
+                self.out.stats['probe.assignment_without_running_loop'] += 1
+                if kind == 'plain':
+                    val = f"v{spec['id']}"
+                elif kind == 'pref':
+                    val = self.src.param.x
+                elif kind == 'bsync':
+                    aid = spec['id']
+                    val = self.param.bind(lambda x, aid=aid: f"b{aid}.x{x}", self.src.param.x)
+                else:
+                    val = self.make_body(spec)
+                self.log(f"ASSIGN a{spec['id']} T{t}.{pn} {kind}")
+                self.guard(lambda: setattr(self.targets[t], pn, val), 'assign')
+                prev = model.get((t, pn), (None, None))[1]
+                model[(t, pn)] = (spec, prev)
+            x = self.src.x
+            for (t, pn), (spec, prev) in sorted(model.items()):
+                kind, aid, out = spec['kind'], spec['id'], spec.get('out', 'value')
+                if kind == 'plain':
+                    exp = f"v{aid}"
+                elif kind == 'pref':
+                    exp = x
+                elif kind == 'bsync':
+                    exp = f"b{aid}.x{x}"
+                elif out != 'value':
+                    exp = prev                      # the awaitable failed or skipped: the previous value stays
+                else:
+                    xx = x if kind.startswith('b') else '-'
+                    exp = f"a{aid}.x{xx}.{spec.get('items', 1) - 1}"
+                model[(t, pn)] = (spec, exp)
+                got = getattr(self.targets[t], pn)
+                if got != exp:
+                    self.violate('C10.final', f"no running event loop: after {op.get('do')} {op.get('kind', '')} T{t}.{pn} holds {got!r}; its most recent "
+                                              f"assignment a{aid} ({kind}) produces {exp!r} (source x={x})")
+        self.out.states = ('noloop',)
+        self.out.sig = 'noloop:' + ' '.join(o.get('kind', 'src') for o in self.case['ops'])
+
     def execute(self):
         cfg = self.cfg
+        if cfg['mode'] == 'noloop':
+            return self.execute_noloop()
         rx = cfg['mode'] == 'rx'
         if rx:
             self.assigns = {}
